@@ -109,6 +109,13 @@ def run_case(cs):
         t3 = {k: v for k, v in world.read_tree(root).items()}
         if world.add_file_symlinks(rng, root, t3, rng.randint(1, 2), outside=os.path.join(d, "outside")):
             cs.count("trees_with_file_symlinks")
+    if rng.random() < 0.08:
+        # a link that leads nowhere (its target was deleted or lives on a volume that is not mounted)
+        par = rng.choice([""] + [k for k, v in world.read_tree(root).items() if v is None])
+        lp = os.path.join(root, par, "broken-link-%d" % rng.randint(0, 9))
+        if not os.path.lexists(lp):
+            os.symlink(rng.choice(["nowhere", "/nonexistent/volume/clip.mov", "../gone/x"]), lp)
+            cs.count("trees_with_broken_links")
     if rng.random() < 0.15:
         os.makedirs(os.path.join(d, "outside"), exist_ok=True)
         if world.add_dir_symlinks(rng, root, {k: v for k, v in world.read_tree(root).items()}, rng.randint(1, 2), outside=os.path.join(d, "outside")):
